@@ -30,7 +30,9 @@ vars == <<cfg, phase, wrote, status, alive>>
 \* utf8adv: UTF8=ACCEPT is advertised; utf8: the client has also ENABLEd it (RFC 6855: only then may it send
 \* UTF-8 in quoted strings)
 \* saslir: SASL-IR is advertised (RFC 4959: only then may AUTHENTICATE carry an initial response on the command line)
-Configs == {c \in [litminus : BOOLEAN, litplus : BOOLEAN, rev2 : BOOLEAN, utf8adv : BOOLEAN, utf8 : BOOLEAN, saslir : BOOLEAN] :
+\* applimit: APPENDLIMIT=<n> is advertised (RFC 7889).  It announces the largest message the server takes; it grants no
+\* permission to skip the synchronisation of a literal (Legal does not mention it), which is why it is a configuration
+Configs == {c \in [litminus : BOOLEAN, litplus : BOOLEAN, rev2 : BOOLEAN, utf8adv : BOOLEAN, utf8 : BOOLEAN, saslir : BOOLEAN, applimit : BOOLEAN] :
               (c.litplus => c.litminus) /\ (c.rev2 => c.litminus)   \* RFC 7888, RFC 9051
               /\ (c.utf8 => c.utf8adv)}
 
@@ -48,7 +50,7 @@ LegalToken(c, t) ==
 \* What the server advertised holds for the connection state it was advertised in: LOGIN, AUTHENTICATE, STARTTLS and
 \* UNAUTHENTICATE invalidate it (RFC 9051 6.1.1), and until the server has announced its capabilities again nothing is
 \* advertised - only what every server accepts may be written.
-NothingAdvertised == [litminus |-> FALSE, litplus |-> FALSE, rev2 |-> FALSE, utf8adv |-> FALSE, utf8 |-> FALSE, saslir |-> FALSE]
+NothingAdvertised == [litminus |-> FALSE, litplus |-> FALSE, rev2 |-> FALSE, utf8adv |-> FALSE, utf8 |-> FALSE, saslir |-> FALSE, applimit |-> FALSE]
 \* UNAUTHENTICATE undoes every ENABLE (RFC 8437 section 2): what was enabled before it is not enabled after it.
 Effective(c, stale, unauth) == IF stale THEN NothingAdvertised ELSE IF unauth THEN [c EXCEPT !.utf8 = FALSE] ELSE c
 
